@@ -6,6 +6,8 @@ CONSTANTS
   MaxOps = 4
   Notifs <- NotifsA
   MaxNotif = 0
+  MaxDup = 0
+  DistinctPatterns = FALSE
   Bug = "none"
   OneQueryPerCmd = FALSE
 INVARIANT TypeOK
